@@ -35,7 +35,27 @@ pub fn judge(h: &History, recs: &[StepRec]) -> Result<(bool, bool), Failure> {
     let mut any_accept = false;
     let mut any_fresh_reject = false;
     let mut last_n: Option<u32> = None;
+    // the application may leave received payloads in the device's queue (SetDrain): what is taken out later
+    // is then a mix of several transactions (and a full queue drops payloads), so payloads are compared only
+    // for transactions after which the queue was emptied and before which it was empty
+    let mut steps_seen = 0usize;
+    let mut drain = true;
+    let mut queue_dirty = false;
     for r in recs {
+        while steps_seen <= r.index && steps_seen < h.steps.len() {
+            if let Step::SetDrain(b) = &h.steps[steps_seen] {
+                drain = *b;
+            }
+            steps_seen += 1;
+        }
+        // only transactions take payloads out (the records of JoinAbp / SetSession do not)
+        let drains_here = drain && !matches!(r.step, Step::JoinAbp | Step::SetSession { .. });
+        let compare_payloads = drains_here && !queue_dirty;
+        if drains_here {
+            queue_dirty = false;
+        } else if !drain {
+            queue_dirty = true;
+        }
         if r.outcome.is_panic() {
             break;
         }
@@ -131,7 +151,7 @@ pub fn judge(h: &History, recs: &[StepRec]) -> Result<(bool, bool), Failure> {
             }
         }
         // payloads handed to the application (buffer holds 4; compare when it cannot have overflowed)
-        if expected_dl.len() <= 4 && r.session_after.is_some() {
+        if compare_payloads && expected_dl.len() <= 4 && r.session_after.is_some() {
             let mut got = r.downlinks.clone();
             let mut want = expected_dl.clone();
             got.sort();
